@@ -186,10 +186,10 @@ func newWorld(kinds []keyKind) *world {
 // ---- envelopes ----
 
 type envelope struct {
-	Desc   string `json:"envelope"` // how it was made
-	Format string `json:"format"`
-	Chain  string `json:"chain"`
-	Plugin bool   `json:"plugin_attr"`
+	Desc    string `json:"envelope"` // how it was made
+	Format  string `json:"format"`
+	Chain   string `json:"chain"`
+	Plugin  bool   `json:"plugin_attr"`
 	bytes   []byte
 	facts   *facts
 	id      int
@@ -224,6 +224,20 @@ func (w *world) trySign(format, chain string, payload []byte, ctype string, plug
 		return nil, err
 	}
 	return newEnvelope(desc, format, chain, plugin, b), nil
+}
+
+// signRaw signs an envelope whose payload is exactly the given bytes (the JWS
+// signer of notation-core-go re-serialises JSON objects, losing duplicate
+// members, escapes and member order: JWS is signed by hand here).
+func (w *world) signRaw(format, chain string, payload []byte, desc string) *envelope {
+	if format == MtJWS {
+		b, err := w.handJWS(chain, payload, "", false)
+		if err != nil {
+			panic(fmt.Sprintf("c01: signRaw %s: %v", desc, err))
+		}
+		return newEnvelope(desc+" [JWS signed by hand]", format, chain, false, b)
+	}
+	return w.sign(format, chain, payload, "", false, desc)
 }
 
 // handJWS signs a JWS envelope whose payload is arbitrary bytes: the
